@@ -140,6 +140,42 @@ def flag_events(rep, thorough):
     return ev
 
 
+def message_flag_events(rep, thorough):
+    """flag sets inside the messages that carry them (MySQL capabilities split over two fields, DNSKEY flags, RDP flags): every
+    corpus object with a set-of-flags field, with each single member added to / removed from the set through the constructor;
+    compose then parse must give the same set back (a member lost on the way is a truncation)"""
+    import attr
+    from .. import objects
+    ev = []
+    seen = {}
+    for cls, obj, wire in objects.templates():
+        if isinstance(obj, enum.Enum) or type(obj) is not cls or not attr.has(cls):
+            continue
+        for f in attr.fields(cls):
+            cur = getattr(obj, f.name, None)
+            if not f.init or not isinstance(cur, (set, frozenset)) or not cur or not all(isinstance(x, enum.IntEnum) for x in cur):
+                continue
+            if seen.get((cls, f.name), 0) >= 2:
+                continue
+            seen[(cls, f.name)] = seen.get((cls, f.name), 0) + 1
+            etype = type(next(iter(cur)))
+            for m in etype:
+                for sub in (set(cur) | {m}, set(cur) - {m}):
+                    if sub == set(cur):
+                        continue
+                    try:
+                        var = attr.evolve(obj, **{f.name.lstrip('_'): type(cur)(sub)})
+                        w = bytes(var.compose())
+                        back = getattr(cls.parse_exact_size(w), f.name)
+                    except Exception:  # pylint: disable=broad-except
+                        continue        # combination the message does not allow (C01's business)
+                    # a member whose value is 0 is no bit of the OR: it is not expected back
+                    ev.append({'k': 'mflags', 'enum': '%s.%s' % (cls.__name__, f.name), 'ids': sorted(int(x) for x in sub if x),
+                               'back': sorted(int(x) for x in back if x), 'toggled': m.name})
+                    rep.case('mflags|%s|%s|%s' % (cls.__name__, f.name, sorted(int(x) for x in sub)))
+    return ev
+
+
 def mpint_events(rep, thorough):
     from cryptoparser.common.parse import ComposerBinary, ParserBinary
     rng = rep.rng
@@ -234,6 +270,31 @@ def ts_events(rep, thorough):
                                'aware': aware, 'wire': list(wire), 'out': out, 'back_secs': bsecs, 'back_millis': bmillis,
                                'back_forever': bforever})
                     rep.case('ts|%s|%d|%d|%s|%s' % (tz, secs, w, ms, aware))
+            # the same instants as aware datetimes in fixed-offset zones, west and east of Greenwich, whole and fractional hours
+            for secs in (instants[:34] if tz in TZS[:2] else instants[:6]):
+                for off in (-720, -300, -270, -30, 30, 345, 840):
+                    for w, ms in ((8, False), (8, True), (4, False)):
+                        millis = (secs * 7) % 1000 if ms else 0
+                        dt = datetime.datetime.fromtimestamp(secs, datetime.timezone(datetime.timedelta(minutes=off))) + \
+                            datetime.timedelta(milliseconds=millis)
+                        c = ComposerBinary()
+                        out, _ = call(lambda: c.compose_timestamp(dt, ms, w))
+                        wire = bytes(c.composed_bytes)
+                        bsecs, bmillis, bforever = [], 0, False
+                        if out == 'ok' and len(wire) == w:
+                            p = ParserBinary(wire)
+                            o2, _ = call(lambda: p.parse_timestamp('t', ms, w))
+                            if o2 == 'ok':
+                                if p['t'] is None:
+                                    bforever = True
+                                else:
+                                    bsecs = digits(calendar.timegm(p['t'].utctimetuple()))
+                                    bmillis = p['t'].microsecond // 1000
+                        ev.append({'k': 'ts', 'tz': '%s, value in UTC%+03d:%02d' % (tz, off // 60 if off >= 0 else -(-off // 60), abs(off) % 60),
+                                   'forever': False, 'secs': digits(secs), 'millis': millis, 'w': w, 'ms': ms,
+                                   'aware': True, 'wire': list(wire), 'out': out, 'back_secs': bsecs, 'back_millis': bmillis,
+                                   'back_forever': bforever})
+                        rep.case('ts|%s|%d|%d|%s|off%d' % (tz, secs, w, ms, off))
             for w in (4, 8):
                 c = ComposerBinary()
                 out, _ = call(lambda: c.compose_timestamp(None, False, w))
@@ -259,7 +320,7 @@ def run(rep):
     thorough = rep.tier == 'thorough'
     res = tlc.require_ok(tlc.run('MC_Prim', workers=4, timeout=1200), 'MC_Prim')
     rep.add_tlc(res, 'MC_Prim (reference primitives: round trip, refusal, minimality for 0..70000, both signs)')
-    ev = int_events(rep, thorough) + flag_events(rep, thorough) + mpint_events(rep, thorough) + ts_events(rep, thorough)
+    ev = int_events(rep, thorough) + flag_events(rep, thorough) + message_flag_events(rep, thorough) + mpint_events(rep, thorough) + ts_events(rep, thorough)
     kinds = {}
     for e in ev:
         kinds[e['k']] = kinds.get(e['k'], 0) + 1
@@ -287,6 +348,8 @@ def run(rep):
             site = 'w=%d|order=%s' % (e['w'], e['order'])
         elif kind == 'flags':
             site = e['enum']
+        elif kind == 'mflags':
+            site = '%s|%s' % (e['enum'], e['toggled'])
         else:
             site = kind
         small = {k: (v if not isinstance(v, list) or len(v) < 40 else v[:40] + ['...']) for k, v in e.items()}
